@@ -2,7 +2,10 @@
 package main
 
 import (
+	"errors"
 	"fmt"
+	"github.com/b2broker/simplefix-go/fix"
+	"github.com/b2broker/simplefix-go/storages/memory"
 	"strings"
 	"sync"
 	"sync/atomic"
@@ -385,9 +388,89 @@ func connLossBehindLogout(c *vk.Ctx, role rig.Role, variant string, trial int) {
 	}
 }
 
+// flakyCounter is the bundled store whose next SetSeqNum for the incoming side fails once when armed (a transient
+// fault of the application's counter store).
+type flakyCounter struct {
+	*memory.Storage
+	armed int32
+}
+
+func (f *flakyCounter) SetSeqNum(id fix.StorageID, n int) error {
+	if id.Side == fix.Incoming && atomic.CompareAndSwapInt32(&f.armed, 1, 0) {
+		return errors.New("scripted: counter store unavailable")
+	}
+	return f.Storage.SetSeqNum(id, n)
+}
+
+// storeFaultAtLogout: the counter store fails to record the sequence number of the very Logout message. The Logout was
+// received all the same: it is acknowledged / ends the Stop.
+func storeFaultAtLogout(c *vk.Ctx, role rig.Role, variant string, idx int) {
+	desc := fmt.Sprintf("%s %s while the counter store fails to record the peer's Logout", role, variant)
+	replay := map[string]interface{}{"scenario": desc, "seed": c.Seed}
+	st := &flakyCounter{Storage: memory.NewStorage()}
+	var appLogout int32
+	r, err := rig.NewStepRig(rig.StepCfg{Role: role, HeartBtInt: 30, Limits: &session.IntLimits{Min: 5, Max: 60}, CloseTimeout: 3 * time.Second, Counter: st, Messages: st, SentinelBarrier: true,
+		AfterRun: func(h *simplefixgo.DefaultHandler, s *session.Session) {
+			s.OnChangeState(utils.EventLogout, func() bool { atomic.AddInt32(&appLogout, 1); return true })
+		}})
+	if err != nil {
+		c.Inconclusive("rig: " + err.Error())
+		return
+	}
+	defer r.Close()
+	p := rig.NewPeer()
+	if res := r.Inbound(p.Logon(30, "0")); !res.Logged {
+		c.Inconclusive("no logon: " + desc)
+		return
+	}
+	r.Inbound(p.Heartbeat())
+	c.Eval(vk.Hash64([]byte(desc)), true)
+	c.Count("logouts_with_a_counter_store_fault", 1)
+	switch variant {
+	case "peer-logout":
+		atomic.StoreInt32(&st.armed, 1)
+		res := r.Inbound(p.Logout())
+		if res.TimedOut {
+			c.Inconclusive("watchdog: " + desc)
+			return
+		}
+		if count(res.Outs, "5") != 1 {
+			c.Violate("C15/peer-logout-not-acknowledged-once/counter-store-fault/"+role.String(), desc+": answered with "+types(res.Outs)+", want exactly one Logout", replay)
+		}
+		if res.Logged {
+			c.Violate("C15/still-logged-after-peer-logout/counter-store-fault/"+role.String(), desc+": IsLogged is still true", replay)
+		}
+	case "own-logout":
+		r.Do(func() error { return r.S.Logout() })
+		atomic.StoreInt32(&st.armed, 1)
+		res := r.Inbound(p.Logout())
+		if res.TimedOut {
+			c.Inconclusive("watchdog: " + desc)
+			return
+		}
+		if atomic.LoadInt32(&appLogout) != 1 {
+			c.Violate("C15/logout-event-not-signalled-to-application/counter-store-fault/"+role.String(), fmt.Sprintf("%s: the application's EventLogout handler ran %d times when the peer answered", desc, atomic.LoadInt32(&appLogout)), replay)
+		}
+	case "stop":
+		r.Do(func() error { return r.S.Stop() })
+		done := r.S.Context().Done()
+		atomic.StoreInt32(&st.armed, 1)
+		r.Inbound(p.Logout())
+		select {
+		case <-done:
+		case <-time.After(time.Second + 3*time.Duration(atomic.LoadInt64(&maxJitter))):
+			if time.Duration(atomic.LoadInt64(&maxJitter)) > 100*time.Millisecond {
+				c.Inconclusive("scheduler jitter: " + desc)
+				return
+			}
+			c.Violate("C15/stop-not-cancelled-on-answer/counter-store-fault/"+role.String(), desc+": the context was not cancelled within 1 s of the peer's answer (close timeout 3 s)", replay)
+		}
+	}
+}
+
 func main() {
 	c := vk.Init("C15")
-	c.Rule("scenarios: role x variant {peer Logout while logged on (then a repeated one); local Logout() then the peer's answer after 0..3 other inbound messages; Stop() answered immediately / after other inbound messages; Stop() never answered; a peer Logout (or answer to the session's own Logout) that is queued behind a slow application handler when the loss of the connection is reported (8/40 trials per role and variant: the handler loop may take either first); Stop() while the outgoing path is stalled (full handler buffer nobody reads: the Logout cannot even leave) with close timeout {0,50ms,300ms,1s}; Stop()/Logout() issued while the session's own TestRequest is pending (N=1, 2.3 s of silence)} x close timeout {2s,5s} for answered and {0,50ms,300ms,2s} for unanswered x 0..3 messages before x application EventLogout handler registered before the action or not. Oracle: Logout count on Outgoing() per step, IsLogged, EventLogout, and Context().Done(): within 250 ms (+3x measured scheduler jitter) after the answer's step completed — an order of magnitude below the deadline so the deadline path cannot pass for the answer path — resp. no later than closeTimeout + 300 ms (+jitter) when unanswered. distinct = scenario tuple; non-trivial = all but those where the deadline beat the scripted answer")
+	c.Rule("scenarios: role x variant {peer Logout while logged on (then a repeated one); local Logout() then the peer's answer after 0..3 other inbound messages; Stop() answered immediately / after other inbound messages; Stop() never answered; peer Logout / answer to the own Logout / answer to Stop arriving while the counter store fails to record that message's number; a peer Logout (or answer to the session's own Logout) that is queued behind a slow application handler when the loss of the connection is reported (8/40 trials per role and variant: the handler loop may take either first); Stop() while the outgoing path is stalled (full handler buffer nobody reads: the Logout cannot even leave) with close timeout {0,50ms,300ms,1s}; Stop()/Logout() issued while the session's own TestRequest is pending (N=1, 2.3 s of silence)} x close timeout {2s,5s} for answered and {0,50ms,300ms,2s} for unanswered x 0..3 messages before x application EventLogout handler registered before the action or not. Oracle: Logout count on Outgoing() per step, IsLogged, EventLogout, and Context().Done(): within 250 ms (+3x measured scheduler jitter) after the answer's step completed — an order of magnitude below the deadline so the deadline path cannot pass for the answer path — resp. no later than closeTimeout + 300 ms (+jitter) when unanswered. distinct = scenario tuple; non-trivial = all but those where the deadline beat the scripted answer")
 	c.Assume("wall clock is used only for the two bounds the statement itself gives (as soon as the answer arrives / at the latest at the close timeout); a jitter canary turns overloaded runs into inconclusive")
 	stop := make(chan struct{})
 	go canary(stop)
@@ -430,6 +513,15 @@ func main() {
 				defer wg.Done()
 				stalled(c, role, to, 100000+i)
 			}(i, role, to)
+		}
+	}
+	for i, variant := range []string{"peer-logout", "own-logout", "stop"} {
+		for _, role := range []rig.Role{rig.Acceptor, rig.Initiator} {
+			wg.Add(1)
+			go func(i int, role rig.Role, variant string) {
+				defer wg.Done()
+				storeFaultAtLogout(c, role, variant, i)
+			}(i, role, variant)
 		}
 	}
 	for trial := 0; trial < c.Pick(8, 40); trial++ {
